@@ -114,6 +114,7 @@ func init() {
 			g12HasUndefined(c)
 			g17StaleArgTypes(c.Repo, c.Rep)
 			g18CallOrder(c.Repo, c.Rep)
+			g19AtomicPrint(c.Repo, c.Rep)
 			c.Rep.floor("G4", 10)
 			c.Rep.floor("G10", 9)
 		},
